@@ -11,5 +11,5 @@ Extraction "gpmodel.ml"
   find_files abs_string
   Section.split split_patch to_bytes
   parse_meta compile_meta lookup_var meta_position
-  run_changes connect_dots mtch_node inst_node eqvb
+  run_changes connect_dots change_assoc mtch_node inst_node eqvb
   augment Augment.find.
